@@ -131,6 +131,11 @@ def gen_cases(rng, tier, scale):
                '@[this]', '@../..', '@..', '@../', '@', '@this/this', '@../this/../x', 'this', '../this', './this', '../../[this]', 'this.this', 'this/../x'):
         for tg in ('{{%s}}', '{{foo %s}}', '{{foo k=%s}}', '{{#if %s}}x{{/if}}', '{{> p %s}}', '{{#each a as |v|}}{{%s}}{{/each}}', '{{foo (bar %s)}}', '{{{%s}}}', '{{#with %s as |w|}}{{/with}}'):
             srcs.append((tg % ap, 'at-paths'))
+    # a lone CR (no LF) right after a tag that stands alone on its line, followed by nothing / a multi-byte character
+    for tg in ('{{#if a}}', '{{! note }}', '{{!-- n --}}', '{{> p}}', '{{else}}', '{{/if}}', '{{#*inline "i"}}', '{{{{raw}}}}'):
+        for tail in ('\r', '\r\u00e9toile', '\r\u65e5', '\rx', '\r\r', ' \r\u00e9'):
+            srcs.append(('{{#if a}}' * (tg in ('{{else}}', '{{/if}}')) + tg + tail + ('{{/if}}' if tg in ('{{#if a}}', '{{else}}') else '') + ('{{/inline}}' if 'inline' in tg else '') + ('{{{{/raw}}}}' if 'raw' in tg else ''), 'lone-cr-after-standalone'))
+            srcs.append(('x\n  ' + tg + tail, 'lone-cr-after-standalone'))
     for c in COMMENTS:
         for ctx in ('%s', 'a %s b', '{{#if a}}\n  %s\n{{/if}}', '{{x~}} %s {{~y}}'):
             srcs.append((ctx % c, 'comment'))
